@@ -31,7 +31,7 @@ use crate::agentdef::{Rec, SharedRec, TestAgent, TestLifecycle, M1, M2, M3, S1, 
 use crate::remote::{
     new_ctl, reader_task, set_stalled, FrameLog, Pace, PacedReader, ReaderEnd, RemoteWriter, Req, ReqKind, SharedCtl, SharedLog,
 };
-use crate::script::{Config, Step};
+use crate::script::{Config, FaultPlan, OpenAnswer, RetrySpec, Step};
 
 pub const NODE: &str = "/node";
 pub const ALL_LANES: [&str; 6] = [V1, V2, M1, M2, M3, S1];
@@ -84,7 +84,55 @@ pub struct TargetFrame {
     pub corrupt: bool,
 }
 
+/// What the harness's link server saw and did for the command channels (fault part of C14).
+#[derive(Clone, Debug)]
+pub enum LinkEvent {
+    /// A request to open a channel for key class `key` arrived and was answered. `retry`: the
+    /// previous request of this key got a transient error within the retry budget, so this one is
+    /// the runtime trying again for the same output; `exhausted`: this transient answer is one more
+    /// than the configured number of retries.
+    Open { ticket: u64, key: usize, answer: OpenAnswer, retry: bool, exhausted: bool, channel: Option<usize> },
+    /// The harness dropped the reading half of channel `channel`.
+    ReaderClosed { ticket: u64, key: usize, channel: usize },
+    /// The reader of `channel` saw the end of the stream: the runtime had dropped its writer.
+    Eof { ticket: u64, key: usize, channel: usize },
+}
+
+pub struct FaultState {
+    pub plan: FaultPlan,
+    next_answer: Vec<usize>,
+    /// Retries the runtime has left for the output it is opening (per key).
+    retries_left: Vec<usize>,
+    /// The last answer for this key was a transient error within the budget: a retry must follow.
+    retrying: Vec<bool>,
+    /// Channel last handed out for the key, with the task reading it (None once closed by the harness).
+    current: Vec<Option<(usize, Option<JoinHandle<()>>)>>,
+    transient_no: usize,
+    pub log: Vec<LinkEvent>,
+}
+
+impl FaultState {
+    pub fn new(plan: FaultPlan) -> Self {
+        let n = plan.keys.len();
+        let budget = plan.retry.retries();
+        FaultState {
+            plan,
+            next_answer: vec![0; n],
+            retries_left: vec![budget; n],
+            retrying: vec![false; n],
+            current: (0..n).map(|_| None).collect(),
+            transient_no: 0,
+            log: vec![],
+        }
+    }
+}
+
+pub type SharedFaults = Arc<Mutex<FaultState>>;
+
 pub struct Obs {
+    pub link_events: Vec<LinkEvent>,
+    /// Tickets at which the harness had just observed quiescence (`Settle` / `Idle` steps, epilogue).
+    pub settles: Vec<u64>,
     pub sessions: Vec<Session>,
     pub rec: Rec,
     pub agent_result: Option<Result<(), String>>,
@@ -123,11 +171,14 @@ pub struct Options {
     pub target_pace: Vec<Pace>,
     /// Crash: drop the whole agent + runtime future after this many script steps (no epilogue).
     pub crash_after: Option<usize>,
+    /// Command-channel faults (C14, fault part only): the link server follows this plan, the runtime
+    /// runs with the plan's retry strategy and idle time-out.
+    pub faults: Option<FaultPlan>,
 }
 
 impl Default for Options {
     fn default() -> Self {
-        Options { reporting: false, stop_at_end: true, probe: true, targets: 0, target_caps: vec![], target_pace: vec![], crash_after: None }
+        Options { reporting: false, stop_at_end: true, probe: true, targets: 0, target_caps: vec![], target_pace: vec![], crash_after: None, faults: None }
     }
 }
 
@@ -168,6 +219,8 @@ pub struct Runner {
     snapshots: Vec<SnapshotPoint>,
     target_ctls: Arc<Mutex<Vec<SharedCtl>>>,
     targets_stalled: Arc<Mutex<bool>>,
+    faults: Option<SharedFaults>,
+    settles: Vec<u64>,
 }
 
 impl Runner {
@@ -324,7 +377,31 @@ impl Runner {
             }
             Step::Settle => {
                 settle().await;
+                self.settles.push(ticket());
                 self.snapshot();
+            }
+            Step::Idle(ms) => {
+                tokio::time::sleep(Duration::from_millis(*ms)).await;
+                settle().await;
+                self.settles.push(ticket());
+            }
+            Step::CloseTargetReader(k) => {
+                let Some(fs) = self.faults.clone() else { return };
+                // only a channel that is still being read can be closed
+                let taken = {
+                    let mut g = fs.lock();
+                    match g.current.get_mut(*k) {
+                        Some(Some((ch, h))) if h.as_ref().map_or(false, |h| !h.is_finished()) => Some((*ch, h.take().unwrap())),
+                        _ => None,
+                    }
+                };
+                if let Some((channel, h)) = taken {
+                    // aborting drops the reader (the task owns it); a frame is decoded and recorded
+                    // without an await point in between, so none is half-recorded
+                    h.abort();
+                    let _ = h.await;
+                    fs.lock().log.push(LinkEvent::ReaderClosed { ticket: ticket(), key: *k, channel });
+                }
             }
             Step::TakeDrop { remote, lane, take, n } => {
                 settle().await;
@@ -357,11 +434,61 @@ async fn link_server(
     mut rng: Rng,
     ctls: Arc<Mutex<Vec<SharedCtl>>>,
     stalled: Arc<Mutex<bool>>,
+    faults: Option<SharedFaults>,
 ) {
     let mut n = 0usize;
     while let Some(req) = link_rx.recv().await {
         match req {
             LinkRequest::Commander(c) => {
+                // Fault part: decide the answer from the plan of the key this request is for.
+                let mut fault_key = None;
+                if let Some(fs) = faults.as_ref() {
+                    let key_dbg = format!("{:?}", c.key);
+                    let mut g = fs.lock();
+                    if let Some(k) = g.plan.keys.iter().position(|needle| key_dbg.contains(needle.as_str())) {
+                        let retry = g.retrying[k];
+                        if !retry {
+                            g.retries_left[k] = g.plan.retry.retries();
+                        }
+                        let i = g.next_answer[k];
+                        g.next_answer[k] += 1;
+                        let answer = g.plan.answers[k].get(i).copied().unwrap_or(OpenAnswer::Ok);
+                        let mut exhausted = false;
+                        g.retrying[k] = false;
+                        if answer == OpenAnswer::Transient {
+                            if g.retries_left[k] > 0 {
+                                g.retries_left[k] -= 1;
+                                g.retrying[k] = true;
+                            } else {
+                                exhausted = true;
+                            }
+                        }
+                        if answer != OpenAnswer::Ok {
+                            g.log.push(LinkEvent::Open { ticket: ticket(), key: k, answer, retry, exhausted, channel: None });
+                            let no = g.transient_no;
+                            g.transient_no += 1;
+                            drop(g);
+                            use swimos_api::error::{DownlinkFailureReason as R, DownlinkRuntimeError as E};
+                            match answer {
+                                OpenAnswer::Transient => {
+                                    let reason = match no % 3 {
+                                        0 => R::RemoteStopped,
+                                        1 => R::ConnectionFailed(Arc::new(std::io::Error::from(std::io::ErrorKind::ConnectionReset))),
+                                        _ => R::DownlinkStopped,
+                                    };
+                                    let _ = c.promise.send(Err(E::DownlinkConnectionFailed(reason)));
+                                }
+                                OpenAnswer::Fatal => {
+                                    let _ = c.promise.send(Err(E::DownlinkConnectionFailed(R::InvalidUrl)));
+                                }
+                                _ => drop(c),
+                            }
+                            continue;
+                        }
+                        g.log.push(LinkEvent::Open { ticket: ticket(), key: k, answer, retry, exhausted, channel: Some(n) });
+                        fault_key = Some(k);
+                    }
+                }
                 let idx = n;
                 n += 1;
                 let cap = caps.get(idx % caps.len().max(1)).copied().unwrap_or(4096);
@@ -372,7 +499,8 @@ async fn link_server(
                 let frames = frames.clone();
                 let key = format!("{:?}", c.key);
                 let reader = PacedReader::new(rx, ctl, rng.fork());
-                tokio::spawn(async move {
+                let eof_log = faults.clone().zip(fault_key);
+                let handle = tokio::spawn(async move {
                     let mut framed = FramedRead::new(reader, RawRequestMessageDecoder);
                     loop {
                         let msg = match framed.next().await {
@@ -390,7 +518,12 @@ async fn link_server(
                                 });
                                 break;
                             }
-                            None => break,
+                            None => {
+                                if let Some((fs, k)) = eof_log.as_ref() {
+                                    fs.lock().log.push(LinkEvent::Eof { ticket: ticket(), key: *k, channel: idx });
+                                }
+                                break;
+                            }
                         };
                         let (is_command, body) = match msg.envelope {
                             Operation::Command(b) => (true, b),
@@ -408,6 +541,9 @@ async fn link_server(
                         });
                     }
                 });
+                if let (Some(fs), Some(k)) = (faults.as_ref(), fault_key) {
+                    fs.lock().current[k] = Some((idx, Some(handle)));
+                }
                 let _ = c.promise.send(Ok(tx));
             }
             LinkRequest::Downlink(d) => {
@@ -468,9 +604,20 @@ where
         let (link_tx, link_rx) = mpsc::channel(8);
         let (stop_tx, stop_rx) = trigger::trigger();
         let lane_conf = LaneConfig { input_buffer_size: nz(cfg2.lane_in_buf), output_buffer_size: nz(cfg2.lane_out_buf), transient: false };
+        let mut runtime_config = runtime_config();
+        if let Some(plan) = opts.faults.as_ref() {
+            use swimos_utilities::future::{Quantity, RetryStrategy};
+            runtime_config.command_output_timeout = Duration::from_millis(plan.timeout_ms);
+            runtime_config.command_output_retry = match plan.retry {
+                RetrySpec::None => RetryStrategy::none(),
+                RetrySpec::Immediate(n) => RetryStrategy::immediate(nz(n)),
+                RetrySpec::Interval(ms, n) => RetryStrategy::interval(Duration::from_millis(ms), Quantity::Finite(nz(n))),
+            };
+        }
+        let faults: Option<SharedFaults> = opts.faults.clone().map(|p| Arc::new(Mutex::new(FaultState::new(p))));
         let config = CombinedAgentConfig {
             agent_config: AgentConfig { default_lane_config: Some(lane_conf), ..Default::default() },
-            runtime_config: runtime_config(),
+            runtime_config,
         };
         let reporters: Arc<Mutex<Vec<(String, UplinkReportReader)>>> = Arc::new(Mutex::new(vec![]));
         let mut aggregate = None;
@@ -506,6 +653,7 @@ where
             rng2.fork(),
             target_ctls.clone(),
             targets_stalled.clone(),
+            faults.clone(),
         ));
 
         let n = cfg2.remotes;
@@ -524,6 +672,8 @@ where
             snapshots: vec![],
             target_ctls: target_ctls.clone(),
             targets_stalled: targets_stalled.clone(),
+            faults: faults.clone(),
+            settles: vec![],
         };
 
         let mut agent_handle = Some(agent_handle);
@@ -561,6 +711,14 @@ where
         for c in target_ctls.lock().iter() {
             set_stalled(c, false);
             c.lock().pace = Pace { chunk: 4096, yields: 0 };
+        }
+        if let Some(plan) = opts.faults.as_ref() {
+            // delayed retries of a channel that is still being opened must be able to finish
+            if let RetrySpec::Interval(ms, n) = plan.retry {
+                tokio::time::sleep(Duration::from_millis(ms * (n as u64 + 1) + 1_000)).await;
+            }
+            settle().await;
+            runner.settles.push(ticket());
         }
         settle().await;
         settle().await;
@@ -619,7 +777,10 @@ where
         }
         let rec = rec2.lock().clone();
         let tf = target_frames.lock().clone();
+        let link_events = faults.as_ref().map(|f| f.lock().log.clone()).unwrap_or_default();
         Obs {
+            link_events,
+            settles: runner.settles,
             sessions: runner.sessions,
             rec,
             agent_result,
